@@ -18,6 +18,8 @@ package c03
 //       Not converging is a violation only if the cluster is stuck (voter majority alive,
 //       nothing in flight, no state change for 20 election timeouts); running out of the
 //       heal budget is counted as inconclusive.
+//   (4) a vote leaves a replica only after a hard state with that term and vote is in the
+//       synced part of its durable record.
 //   A replica that cannot restart from its own durable record (replay error, panic in
 //   RestartNode) is a violation as well.
 
@@ -42,23 +44,23 @@ func TestMain(m *testing.M) { stats.Main(m) }
 const ntRule = "non-trivial = >=1 entry was committed (handed out) before a crash of a replica whose durable record held it, that replica restarted, AND a new leader term was observed after that restart"
 
 var (
-	recMem   = stats.New("crash_heavy_memory", "L2 swarm, crash-heavy (a crash point among the 9 stage boundaries incl. torn [entries..,hardstate] tail is drawn for 3-15% of all steps; crash-all and crash-a-quorum macros), raft.MemoryStorage, final heal phase; "+ntRule)
+	recMem   = stats.New("crash_heavy_memory", "L2 swarm, crash-heavy (a crash point among the 9 stage boundaries incl. torn [entries..,hardstate] tail is drawn for 1-15% of all steps; crash-all and crash-a-quorum macros), raft.MemoryStorage, final heal phase; "+ntRule)
 	recRocks = stats.New("crash_heavy_rocksstorage", "same on raft.RocksStorage over a mem / pebble (thorough: rocksdb) engine; at restart the engine either survived intact or is empty; differential storage check after every step; "+ntRule)
 	recL3    = stats.New("l3_phases_crash", "L3 election phases with leaders crashed at drawn stages, memory and RocksStorage, final heal phase; "+ntRule)
 	recL1    = stats.New("l1_uniform_crash", "L1 uniform schedules with crash points on 3% of the steps, final heal phase; "+ntRule)
 )
 
 var profMem = raftsim.Profile{Name: "c03-mem", Layer: 2, MinSteps: 40, MaxSteps: 500, StorageW: [4]int{1, 0, 0, 0},
-	CrashPct: []int{3, 8, 15, 15}, MacroPct: 7, MacroW: [7]int{8, 4, 1, 3, 3, 1, 3}, MembershipPct: 30, FinalHeal: true, HealTimeouts: 60}
+	CrashPct: []int{1, 3, 8, 15}, MacroPct: 6, MacroW: [7]int{10, 4, 2, 1, 2, 1, 5}, MembershipPct: 35, FinalHeal: true, HealTimeouts: 60}
 
 var profRocksQuick = raftsim.Profile{Name: "c03-rocks", Layer: 2, MinSteps: 40, MaxSteps: 400, StorageW: [4]int{0, 3, 1, 0},
-	CrashPct: []int{3, 8, 15}, MacroPct: 7, MacroW: [7]int{8, 4, 1, 3, 3, 1, 4}, MembershipPct: 30, FinalHeal: true, HealTimeouts: 60}
+	CrashPct: []int{1, 3, 8, 15}, MacroPct: 6, MacroW: [7]int{10, 4, 2, 1, 2, 1, 6}, MembershipPct: 35, FinalHeal: true, HealTimeouts: 60}
 
 var profRocksThorough = raftsim.Profile{Name: "c03-rocks-thorough", Layer: 2, MinSteps: 40, MaxSteps: 400, StorageW: [4]int{0, 3, 3, 1},
-	CrashPct: []int{3, 8, 15}, MacroPct: 7, MacroW: [7]int{8, 4, 1, 3, 3, 1, 4}, MembershipPct: 30, FinalHeal: true, HealTimeouts: 60}
+	CrashPct: []int{1, 3, 8, 15}, MacroPct: 6, MacroW: [7]int{10, 4, 2, 1, 2, 1, 6}, MembershipPct: 35, FinalHeal: true, HealTimeouts: 60}
 
 var profL3 = raftsim.Profile{Name: "c03-l3", Layer: 3, StorageW: [4]int{2, 1, 1, 0}, CrashPct: []int{0, 3}, MacroPct: 10,
-	MacroW: [7]int{3, 0, 1, 3, 3, 0, 2}, MembershipPct: 20, MinPhases: 2, MaxPhases: 8, FinalHeal: true, HealTimeouts: 60}
+	MacroW: [7]int{3, 0, 1, 2, 2, 0, 3}, MembershipPct: 20, MinPhases: 2, MaxPhases: 8, FinalHeal: true, HealTimeouts: 60}
 
 var profL1 = raftsim.Profile{Name: "c03-l1", Layer: 1, MinSteps: 40, MaxSteps: 500, StorageW: [4]int{2, 1, 0, 0},
 	CrashPct: []int{3}, MacroPct: 3, MacroW: [7]int{8, 1, 0, 1, 1, 0, 1}, MembershipPct: 30, FinalHeal: true, HealTimeouts: 60}
@@ -73,16 +75,16 @@ type gent struct {
 
 type oracle struct {
 	raftsim.NopObserver
-	G       map[uint64]*gent
-	maxG    uint64
-	shadow  map[uint64]*raftsim.Shadow
-	stable  map[uint64]bool       // shadow == what the storage must hold (no crash inside the step)
-	ledTerm map[[2]uint64]bool    // (replica, term) already checked
-	leaders map[uint64]bool       // terms with a leader
-	curLead map[uint64]uint64     // replica -> term it currently leads (0: none), by observation
-	handed  map[uint64]uint64     // replica -> highest index handed in this incarnation
-	crashedHolding map[uint64]bool // replica crashed while its durable record held a committed entry
-	restartedAt    int             // number of leader terms when such a replica restarted (-1: not yet)
+	G              map[uint64]*gent
+	maxG           uint64
+	shadow         map[uint64]*raftsim.Shadow
+	stable         map[uint64]bool    // shadow == what the storage must hold (no crash inside the step)
+	ledTerm        map[[2]uint64]bool // (replica, term) already checked
+	leaders        map[uint64]bool    // terms with a leader
+	curLead        map[uint64]uint64  // replica -> term it currently leads (0: none), by observation
+	handed         map[uint64]uint64  // replica -> highest index handed in this incarnation
+	crashedHolding map[uint64]bool    // replica crashed while its durable record held a committed entry
+	restartedAt    int                // number of leader terms when such a replica restarted (-1: not yet)
 	ntLeaderAfter  bool
 	diffChecks     int
 	completeChecks int
@@ -238,6 +240,35 @@ func (o *oracle) HandOut(s *raftsim.Sim, r *raftsim.Replica, sn pb.Snapshot, ent
 	}
 }
 
+// (4) what must be durable before messages leave: a vote (MsgVote for itself, a granting
+// MsgVoteResp) enters the network only after a hard state with that term and vote is in
+// the synced part of the durable record (wal.Save syncs when raft.MustSync says so).
+func (o *oracle) Sent(s *raftsim.Sim, r *raftsim.Replica, msgs []pb.Message) {
+	for i := range msgs {
+		m := &msgs[i]
+		var who uint64
+		switch {
+		case m.Type == pb.MsgVote:
+			who = r.ID
+		case m.Type == pb.MsgVoteResp && !m.Reject:
+			who = m.To
+		default:
+			continue
+		}
+		var hs pb.HardState
+		for k := r.Disk.Synced - 1; k >= 0; k-- {
+			if r.Disk.Recs[k].Kind == raftsim.RecState {
+				hs = r.Disk.Recs[k].HS
+				break
+			}
+		}
+		if hs.Term < m.Term || (hs.Term == m.Term && hs.Vote != who) {
+			s.Fail("C03 (4) durable before sent: replica %d sends %s (vote for %d in term %d) while the synced part of its durable record says term %d vote %d: a crash now forgets the vote",
+				r.ID, m.Type, who, m.Term, hs.Term, hs.Vote)
+		}
+	}
+}
+
 func (o *oracle) holdsCommitted(r *raftsim.Replica) bool {
 	sn, _, ents, err := r.Disk.Replay()
 	if err != nil {
@@ -279,7 +310,9 @@ func (o *oracle) checkStore(s *raftsim.Sim, r *raftsim.Replica, when string) {
 
 // (2) continuously: after a completed step the storage holds exactly the log.
 func (o *oracle) StepDone(s *raftsim.Sim, r *raftsim.Replica) {
-	if r.Up {
+	// MemoryStorage is the reference implementation the shadow was written after; it is
+	// compared at restart and after snapshot/compaction only
+	if r.Up && s.P.Storage != raftsim.StoreMem {
 		o.checkStore(s, r, "after a completed step")
 	}
 }
@@ -339,6 +372,25 @@ func (o *oracle) converged(c *raftsim.Case) bool {
 	return len(o.missing(c)) == 0
 }
 
+// promotedLearnerDeadlock recognises the signature of C03-promoted-learner-ignores-votes
+// in a stuck cluster: a live replica that is a voter of the final configuration still is a
+// learner in its own applied configuration (it ignores every vote request) and no live
+// replica leads. It returns that replica's id (0: signature absent).
+func (o *oracle) promotedLearnerDeadlock(c *raftsim.Case) uint64 {
+	fc, _ := o.finalConf()
+	for _, r := range c.S.Reps {
+		if r.Up && c.S.Peek(r).State == raft.StateLeader {
+			return 0
+		}
+	}
+	for _, r := range c.S.Reps {
+		if r.Up && fc.Voters[r.ID] && c.S.Peek(r).IsLearner {
+			return r.ID
+		}
+	}
+	return 0
+}
+
 func labelsOf(c *raftsim.Case, o *oracle) (labels []string, nontrivial bool) {
 	st := &c.S.St
 	add := func(cond bool, l string) {
@@ -385,7 +437,7 @@ func tier() string { return os.Getenv("VERIF_TIER") }
 
 func knownSet() map[string]bool {
 	m := map[string]bool{}
-	for _, id := range raftsim.KnownIDs {
+	for _, id := range append([]string{raftsim.KnownPromotedLearnerNoVote}, raftsim.KnownIDs...) {
 		if known.Active(id) {
 			m[id] = true
 		}
@@ -402,11 +454,17 @@ func run(t *testing.T, prof raftsim.Profile, rec *stats.Recorder) {
 			Known:     ks,
 			Converged: func(c *raftsim.Case) bool { return o.converged(c) },
 			Finish: func(c *raftsim.Case) {
-				switch c.G.Heal {
-				case raftsim.HealStuck:
+				switch {
+				case c.G.Heal == raftsim.HealStuck && c.S.LivenessExcluded:
+					rec.Count("inconclusive", 1)
+					rec.Count("inconclusive_stuck_by_exclusion_of_known_finding", 1)
+				case c.G.Heal == raftsim.HealStuck && ks[raftsim.KnownPromotedLearnerNoVote] && o.promotedLearnerDeadlock(c) != 0:
+					rec.Count("inconclusive", 1)
+					rec.Count("excluded_by_known_finding", 1)
+				case c.G.Heal == raftsim.HealStuck:
 					c.S.Fail("C03 (3): after the heal phase (everything restarted, partitions healed, %d rounds) the cluster is stuck: a voter majority is alive, nothing is in flight and no replica's state changed for 20 election timeouts, yet %s",
 						c.G.HealRounds, strings.Join(o.missing(c), "; "))
-				case raftsim.HealOutOfBudget, raftsim.HealNoQuorum:
+				case c.G.Heal == raftsim.HealOutOfBudget || c.G.Heal == raftsim.HealNoQuorum:
 					rec.Count("inconclusive", 1)
 					rec.Count("inconclusive_"+c.G.Heal.String(), 1)
 				}
@@ -414,6 +472,10 @@ func run(t *testing.T, prof raftsim.Profile, rec *stats.Recorder) {
 				if c.S.St.ExcludedKnown > 0 {
 					rec.Count("excluded_by_known_finding", int64(c.S.St.ExcludedKnown))
 				}
+				rec.Count("sum_steps", int64(c.S.St.Steps))
+				rec.Count("sum_readies", int64(c.S.St.Readies))
+				rec.Count("sum_crashes", int64(c.S.St.Crashes))
+				rec.Count("sum_restarts", int64(c.S.St.Restarts))
 				rec.Record(c.S.TraceHash(), nt, labels, func() interface{} { return sample(c, o) })
 			},
 		})
@@ -430,3 +492,164 @@ func TestDurabilityRocks(t *testing.T) {
 }
 func TestDurabilityL3(t *testing.T) { run(t, profL3, recL3) }
 func TestDurabilityL1(t *testing.T) { run(t, profL1, recL1) }
+
+// ---- regression probes of the findings recorded for this property ----
+
+func firstLine(s string) string {
+	if i := strings.IndexByte(s, '\n'); i >= 0 {
+		return s[:i]
+	}
+	return s
+}
+
+func probeResult(t *testing.T, msg string) (bool, string) {
+	if strings.HasPrefix(msg, "HARNESS:") {
+		t.Fatalf("%s", msg)
+	}
+	if msg != "" {
+		return true, firstLine(msg)
+	}
+	return false, ""
+}
+
+// C03-single-voter-apply-before-wal: a group with one voter. The leader appends a
+// proposal and commits it in the same step (quorum 1); processReady publishes the
+// committed entry to the apply side BEFORE persistRaftState writes it to the WAL. The
+// process dies in between, restarts without the entry, leads again and commits a
+// different entry at the same index.
+func TestKnownSingleVoterWindow(t *testing.T) {
+	known.Probe(t, raftsim.KnownSingleVoterWindow, func() (bool, string) {
+		return probeResult(t, raftsim.Scripted(func(ct *raftsim.CollectT) {
+			p := raftsim.Params{N: 1, ElectionTick: 3, HeartbeatTick: 1, MaxSizePerMsg: 1 << 20, MaxCommittedSize: 1 << 40, MaxInflight: 8,
+				Storage: raftsim.StoreMem, Seed: 1, KeepLastAppResp: true, RealCtor: true}
+			s := raftsim.New(ct, p, newOracle())
+			defer s.Close()
+			r1 := s.Rep(1)
+			s.FullStep(r1)
+			s.Campaign(r1)
+			s.FullStep(r1) // leader of term 2, entries 1..2 durable
+			s.Propose(r1, 8)
+			s.Step(r1, true, false, raftsim.CrashAfterPublish, nil) // entry 3 handed to the apply side, not in the WAL
+			s.Restart(r1, false)
+			s.FullStep(r1)
+			s.Campaign(r1)
+			s.FullStep(r1) // leader of term 3: its empty entry takes index 3
+		}))
+	})
+}
+
+// C03-restarted-learner-refuses-snapshot: voter 1 leads; learner 2 joins, receives entry
+// 1 ("add node 1") only, persists it with commit index 1 and dies. The leader goes on,
+// snapshots and compacts. Replica 2 restarts: its configuration, rebuilt from its
+// committed prefix, is {voters: 1}, isLearner == false; every MsgSnap (which lists 2 as
+// learner) is refused by raft.restore ("can't become learner when restores snapshot"),
+// the leader has nothing else to offer: 2 never applies the committed entries.
+func TestKnownLearnerRefusesSnapshot(t *testing.T) {
+	known.Probe(t, raftsim.KnownLearnerSnapshot, func() (bool, string) {
+		return probeResult(t, raftsim.Scripted(func(ct *raftsim.CollectT) {
+			p := raftsim.Params{N: 1, ElectionTick: 3, HeartbeatTick: 1, MaxSizePerMsg: 0, MaxCommittedSize: 1 << 40, MaxInflight: 8,
+				Storage: raftsim.StoreMem, Seed: 1, KeepLastAppResp: true, RealCtor: true}
+			o := newOracle()
+			s := raftsim.New(ct, p, o)
+			defer s.Close()
+			r1 := s.Rep(1)
+			s.FullStep(r1)
+			s.Campaign(r1)
+			s.FullStep(r1)
+			r2 := s.AddReplica(true)
+			s.FullStep(r2)
+			s.ProposeConf(r1, pb.ConfChangeAddLearnerNode, 2)
+			s.FullStep(r1)
+			// feed 2 until it has applied entry 1, no further
+			for i := 0; i < 40 && r2.App.Applied < 1; i++ {
+				s.Tick(r1)
+				s.FullStep(r1)
+				s.Settle(50, nil, func() bool { return r2.App.Applied >= 1 })
+			}
+			if r2.App.Applied != 1 {
+				ct.Fatalf("HARNESS: probe could not bring the learner to applied index 1 (is %d)", r2.App.Applied)
+			}
+			s.Crash(r2, nil)
+			s.DropAll(nil)
+			for i := 0; i < 3; i++ {
+				s.Propose(r1, 8)
+				s.FullStep(r1)
+			}
+			if !s.Snapshot(r1, 0) {
+				ct.Fatalf("HARNESS: probe could not snapshot the leader")
+			}
+			g := raftsim.NewGen(s, &raftsim.TapeChooser{}, raftsim.Profile{CrashPct: []int{0}, HealTimeouts: 40})
+			c := &raftsim.Case{S: s, G: g}
+			g.HealPhase(func() bool { return o.converged(c) })
+			if g.Heal == raftsim.HealStuck {
+				s.Fail("C03 (3): stuck after heal: %s", strings.Join(o.missing(c), "; "))
+			}
+		}))
+	})
+}
+
+// C03-rocksstorage-stale-tail-after-snapshot, at the storage API: a RocksStorage that
+// holds entries above index i is given ApplySnapshot(i) - what processReady does when
+// raft restored a snapshot under a longer, conflicting log. MemoryStorage drops the
+// log; RocksStorage keeps the entries above i and reports them through LastIndex /
+// Term / Entries (raftLog then believes in them: votes, appends and hands them out).
+func TestKnownRocksStaleTail(t *testing.T) {
+	known.Probe(t, raftsim.KnownRocksStaleTail, func() (bool, string) {
+		for _, kind := range []raftsim.StorageKind{raftsim.StoreRocksMem, raftsim.StoreRocksPebble} {
+			st, closeFn, err := raftsim.NewProbeStorage(kind)
+			if err != nil {
+				t.Fatalf("HARNESS: %v", err)
+			}
+			var ents []pb.Entry
+			for i := uint64(1); i <= 8; i++ {
+				ents = append(ents, pb.Entry{Index: i, Term: 2, Data: []byte{byte(i)}})
+			}
+			st.Append(ents)
+			sn := pb.Snapshot{Metadata: pb.SnapshotMetadata{Index: 5, Term: 3}}
+			st.ApplySnapshot(sn)
+			sh := &raftsim.Shadow{}
+			sh.ApplySnapshot(sn)
+			derr := raftsim.CompareStorage(st, sh, 6, true)
+			closeFn()
+			if derr != nil {
+				return true, fmt.Sprintf("RocksStorage over %s: entries 1..8 (term 2), then ApplySnapshot(index 5, term 3): %v", kind, derr)
+			}
+		}
+		return false, ""
+	})
+}
+
+// C03-promoted-learner-ignores-votes: voter 1 leads alone, adds learner 2 and promotes it
+// (both changes commit with quorum 1 before 2 has received anything). Replica 1
+// restarts: its configuration is {1,2}, it needs 2's vote; 2 still is a learner in its own
+// configuration and ignores Msg(Pre)Vote ("learner can not vote"), so nobody can ever be
+// elected and 2 never gets the log.
+func TestKnownPromotedLearnerIgnoresVotes(t *testing.T) {
+	known.Probe(t, raftsim.KnownPromotedLearnerNoVote, func() (bool, string) {
+		return probeResult(t, raftsim.Scripted(func(ct *raftsim.CollectT) {
+			p := raftsim.Params{N: 1, ElectionTick: 3, HeartbeatTick: 1, MaxSizePerMsg: 1 << 20, MaxCommittedSize: 1 << 40, MaxInflight: 8,
+				Storage: raftsim.StoreMem, Seed: 1, KeepLastAppResp: true, RealCtor: true, PreVote: true, CheckQuorum: true}
+			o := newOracle()
+			s := raftsim.New(ct, p, o)
+			defer s.Close()
+			r1 := s.Rep(1)
+			s.FullStep(r1)
+			s.Campaign(r1)
+			s.FullStep(r1)
+			r2 := s.AddReplica(true)
+			s.FullStep(r2)
+			s.ProposeConf(r1, pb.ConfChangeAddLearnerNode, 2)
+			s.FullStep(r1)
+			s.ProposeConf(r1, pb.ConfChangeAddNode, 2) // promotion; commits at once: 1 is still the only voter it needs
+			s.FullStep(r1)
+			s.DropAll(nil) // nothing reached 2
+			s.Crash(r1, nil)
+			g := raftsim.NewGen(s, &raftsim.TapeChooser{}, raftsim.Profile{CrashPct: []int{0}, HealTimeouts: 40})
+			c := &raftsim.Case{S: s, G: g}
+			g.HealPhase(func() bool { return o.converged(c) })
+			if g.Heal == raftsim.HealStuck {
+				s.Fail("C03 (3): stuck after heal: %s; replica %d is a voter of the committed configuration but a learner in its own and ignores vote requests", strings.Join(o.missing(c), "; "), o.promotedLearnerDeadlock(c))
+			}
+		}))
+	})
+}
